@@ -763,6 +763,44 @@ class CopulaDiffusionMatrix(FunctionContract):
                                                             "simulated_variance_matrix": got.tolist(), "expected": want.tolist()})
 
 
+class CopulaVariationFlag(FunctionContract):
+    """LevyCopulaModel.jump_of_finite_variation (real body, d = 2; every margin's Blumenthal-Getoor index and its own
+    finite-variation flag abstract, related only by what is true of every measure: index < 1 => finite variation =>
+    index <= 1): the copula-wide regime that the chain's drift compensation and diffusion adjustment branch on is
+    "finite variation iff EVERY margin is" -- the margins' own flags, which is what each margin's drift was compensated with."""
+    prop = "C04"
+    target = "rpylib.model.levycopulamodel:LevyCopulaModel.jump_of_finite_variation"
+    name = "LevyCopulaModel.jump_of_finite_variation"
+
+    def configure(self, interp):
+        from pyvc import ctx
+        interp.hooks[LM + "LevyModel.blumenthal_getoor_index"] = lambda it, f, b: ctx.PATH.ghost["bg"][b["self"].fields["tag"]]
+        interp.hooks[LM + "LevyModel.jump_of_finite_variation"] = lambda it, f, b: ctx.PATH.ghost["fvs"][b["self"].fields["tag"]]
+
+    def setup(self, vc, case):
+        bg = vc.reals("blumenthal_getoor_index", 2)
+        fvs = [vc.bool(f"margin{k}_finite_variation") for k in range(2)]
+        vc.assume(And(*[And(b_ >= 0, b_ <= 2, Implies(b_ < 1, f_), Implies(f_, b_ <= 1)) for b_, f_ in zip(bg, fvs)]))
+        vc.ghost.update(bg=bg, fvs=fvs)
+        models = [vc.obj(LM + "LevyModel", tag=k) for k in range(2)]
+        return dict(self=vc.obj("rpylib.model.levycopulamodel:LevyCopulaModel", models=models))
+
+    def ensures(self, result, self_=None, **kw):
+        from pyvc import ctx
+        fvs = ctx.PATH.ghost["fvs"]
+        return {"finite-variation-iff-every-margin-is": result == And(*fvs) if is_sym(result) or any(is_sym(f) for f in fvs) else bool(result) == all(fvs)}
+
+    def replay(self, model, clause, case):
+        from rpylib.model.levycopulamodel import LevyCopulaModel
+        from rpylib.distribution.levycopula import ClaytonCopula
+        from rpylib.model.utils import create_levy_model, ModelType
+        from rpylib.model.levymodel.mixed.hem import HEMParameters, HEMModel
+        ms = [HEMModel(parameters=HEMParameters(sigma=0.1, p=0.6, eta1=25.0, eta2=40.0, intensity=5.0)), create_levy_model(ModelType.CGMY)(c=0.1, g=10.0, m=8.0, y=1.0)]
+        cm = LevyCopulaModel(models=ms, copula=ClaytonCopula(theta=0.7, eta=0.3))
+        got, flags = bool(cm.jump_of_finite_variation()), [bool(m.jump_of_finite_variation()) for m in ms]
+        return (got != all(flags), {"margins": "HEM, CGMY y=1 (index exactly 1, infinite variation)", "copula_flag": got, "margin_flags": flags})
+
+
 class CopulaMarginMean(Lemma):
     """property statement for one margin of a copula chain, from the two contracts above: the constructor compensates margin
     k's drift with the cut-off radius of ITS OWN variation regime, initialisation adds the first moment outside the radius
@@ -819,7 +857,7 @@ class CopulaMarginMean(Lemma):
         return (abs(chain - mean) > 1e-6, {"margins": "HEM (finite variation) + CGMY y=1.3", "HEM_margin_chain_mean": chain, "HEM_truncated_mean": float(mean)})
 
 
-UNITS = [ComputeMuH(), Representations(), Initialisation(), MeanIdentity(), VolAdjustment(), VolAdjustmentWideCell(), ChainConstructor(), CopulaInitialisation(), CopulaChainConstructor(), CopulaDiffusionMatrix(), CopulaMarginMean()]
+UNITS = [ComputeMuH(), Representations(), Initialisation(), MeanIdentity(), VolAdjustment(), VolAdjustmentWideCell(), ChainConstructor(), CopulaInitialisation(), CopulaChainConstructor(), CopulaDiffusionMatrix(), CopulaVariationFlag(), CopulaMarginMean()]
 ASSUMPTIONS = ["A1: floats are mathematical reals", "A6: integrate_against_x / xx are additive interval functions of a measure (C09)",
                "the first-moment integrals K, T are finite where a representation needs them (as the library assumes)"]
 TRUSTED_BASE = ["z3 5.1 (LRA/NRA + arrays + uninterpreted functions)", "pyvc interpreter + numpy models"]
